@@ -417,6 +417,100 @@ theorem master_bookkeeping (f : α → β) (size : Nat) (hsize : 2 ≤ size) (pr
   have hinv := inv_runSched f prog cs _ (inv_init f size prog hsize)
   exact ⟨hinv.Q, hinv.G, hinv.R⟩
 
+/-- **Collection in submission order never raises**: if the master program submits only
+ids that are not pending and every `get_result(id)` asks for the oldest pending id
+(`inOrder`, a static check of the program), then under every schedule, for every number
+of slaves, every time estimate and every `slave=` argument no call ever raises — in
+particular `get_result` never fails its per-slave FIFO test. -/
+theorem inorder_never_raises (f : α → β) (size : Nat) (hsize : 2 ≤ size) (prog : List (Op α))
+    (hio : inOrder [] prog = true) (cs : List Nat) :
+    (run f (init (β := β) size prog) cs).err = none :=
+  inOrder_run f prog cs _ (inv_init f size prog hsize) rfl (by simpa [init] using hio)
+
+/-- the master loops of `core/network.py`: `submit_call(..., id=i)` for `i = 0..parts-1`,
+then `get_result(i)` for `i = 0..parts-1` -/
+def masterProg (parts : Nat) (payload : Nat → α) (est : Nat → Int) : List (Op α) :=
+  (List.range parts).map (fun i => Op.submit i (payload i) (est i) none) ++
+  (List.range parts).map (fun i => Op.get i)
+
+private theorem inOrder_gets (pend : List Nat) :
+    inOrder (α := α) pend (pend.map (fun i => Op.get i)) = true := by
+  induction pend with
+  | nil => rfl
+  | cons h t ih => simp [inOrder, ih]
+
+private theorem inOrder_submits (payload : Nat → α) (est : Nat → Int) (l pend : List Nat)
+    (hnd : (pend ++ l).Nodup) :
+    inOrder pend (l.map (fun i => Op.submit i (payload i) (est i) none) ++
+      (pend ++ l).map (fun i => Op.get i)) = true := by
+  induction l generalizing pend with
+  | nil => simpa using inOrder_gets pend
+  | cons i t ih =>
+    have hnot : i ∉ pend := by
+      intro hm
+      have := List.nodup_append.mp hnd
+      exact this.2.2 i hm i (by simp) rfl
+    have := ih (pend ++ [i]) (by simpa using hnd)
+    simp only [List.map_cons, List.cons_append, inOrder, Bool.and_eq_true, Bool.not_eq_true']
+    refine ⟨by simpa using hnot, ?_⟩
+    simpa using this
+
+/-- **the master loops of the three measures never raise and return chunk `i` for id `i`**
+— under every schedule, every number of slaves `size - 1 ≥ 1`, every time estimate: the
+run cannot fail, and once `run()` has returned, `get_result(i)` has returned `f (payload i)`
+for `i = 0..parts-1`, in this order (`f` = the chunk kernel, `payload i` = the arguments of
+chunk `i`). -/
+theorem master_loop_correct (f : α → β) (size : Nat) (hsize : 2 ≤ size) (parts : Nat)
+    (payload : Nat → α) (est : Nat → Int) (cs : List Nat) :
+    let st := run f (init (β := β) size (masterProg parts payload est)) cs
+    st.err = none ∧
+    (st.finished = true → st.got = (List.range parts).map (fun i => (i, f (payload i)))) := by
+  intro st
+  have hio : inOrder [] (masterProg parts payload est) = true := by
+    have := inOrder_submits payload est (List.range parts) [] (by simpa using List.nodup_range)
+    simpa [masterProg] using this
+  have herr := inorder_never_raises f size hsize _ hio cs
+  refine ⟨herr, fun hfin => ?_⟩
+  have hspec := finished_run_eq_spec f size hsize _ cs herr hfin
+  -- the specification of the loop
+  have hsub : ∀ (l : List Nat) (q : List (Nat × α)) (out : List (Nat × β)) (r : List (Op α)),
+      (q.map (·.1) ++ l).Nodup →
+      specRun f (q, out) (l.map (fun i => Op.submit i (payload i) (est i) none) ++ r) =
+        specRun f (q ++ l.map (fun i => (i, payload i)), out) r := by
+    intro l
+    induction l with
+    | nil => intro q out r _; simp
+    | cons i t ih =>
+      intro q out r hnd
+      have hnot : i ∉ q.map (·.1) := by
+        intro hm
+        exact (List.nodup_append.mp hnd).2.2 i hm i (by simp) rfl
+      have hl : (lookup i q).isSome = false := by
+        cases hx : (lookup i q).isSome with
+        | false => rfl
+        | true => exact absurd ((lookup_isSome_iff i q).mp hx) hnot
+      simp only [List.map_cons, List.cons_append, specRun, specStep, hl]
+      have := ih (q ++ [(i, payload i)]) out r (by simpa using hnd)
+      simpa using this
+  have hget : ∀ (q : List (Nat × α)) (out : List (Nat × β)),
+      specRun f (q, out) (q.map (fun x => Op.get x.1)) =
+        .ok ([], out ++ q.map (fun x => (x.1, f x.2))) := by
+    intro q
+    induction q with
+    | nil => intro out; simp [specRun]
+    | cons x t ih =>
+      intro out
+      simp only [List.map_cons, specRun, specStep, lookup, if_true, eraseId]
+      rw [ih]; simp
+  have hall : specRun f ([], []) (masterProg parts payload est) =
+      .ok ([], (List.range parts).map (fun i => (i, f (payload i)))) := by
+    unfold masterProg
+    rw [hsub (List.range parts) [] [] _ (by simpa using List.nodup_range)]
+    have := hget ((List.range parts).map (fun i => (i, payload i))) []
+    simpa [List.map_map, Function.comp_def] using this
+  rw [hall] at hspec
+  exact (Prod.mk.inj (Except.ok.inj hspec)).2.symm
+
 /-- **Single-process mode returns the same**: without slaves (`mpi.available == False`,
 `size < 2`: every call is executed inside `submit_call`) a completed error-free run
 returns what the specification prescribes — hence, with `finished_run_eq_spec`, exactly
